@@ -95,9 +95,10 @@ REFINE = {
 }
 
 EXTRA = {
- "C07": " Partial path: SatDC07Partial.sat_C07_partial extends the liveness theorem to LiqSubCase OR LiqPartialCase (forward simulation of the partial liquidation); every clause of LiqPartialCase has a kernel-evaluated world in which exactly that clause fails and the liquidation fails although the property's premises hold (the exact condition is |realised PnL| + penalty <= margin, not the sign of the ratio).",
- "C08": " Every fault point: Model/Fault.lean is the dispatcher with one injected failure (countdown over every dispatched message); FaultAtomic.fault_fails_tx proves for every k, world and transaction of every kind that a transaction which succeeds although fault k was armed never reached it and has the normal result (a fired fault fails the whole call; stepF_atomic: nothing changes), fault_profile gives the exact profile; the harness's fault mode and the theorem speak about the same indices (the driver compares, per engine transaction and index, whether the model's tree reaches the index and whether the implementation's sub-call exists).",
- "C14": " Registry clause Spec.C14.checkReg (a successful RemoveVamm / AddVamm changes exactly the named entry, nothing else changes the registry): SatExtra3.sat_C14_reg, reachable_extra3, history_extra3. Liveness clause Spec.C14.checkPauseLive (a Liquidate / PayFunding refused BECAUSE the engine is paused, judged on the error text): SatExtra4.sat_C14_pauseLive; that the model's handlers do not consult the pause flag is EngineGuards.liquidate_ignores_pause / payFunding_ignores_pause.",
+ "C15": " Ghost snapshots (Spec/Ghost.lean): the band is also judged against the snapshot history as the MODEL writes it along the observed operations (the stored snapshots are the state a snapshot defect corrupts) — GhostSound.next_tracks / run_tracks (on the model the ghost history IS the stored history, for every sequence of operations) and bandCheck_quiet (the clause is quiet on every model step).",
+ "C07": " Partial path: SatDC07Partial.sat_C07_partial extends the liveness theorem to LiqSubCase OR LiqPartialCase (forward simulation of the partial liquidation); every clause of LiqPartialCase has a kernel-evaluated world in which exactly that clause fails and the liquidation fails although the property's premises hold (the exact condition is |realised PnL| + penalty <= margin, not the sign of the ratio). Ghost registry (Spec/GhostReg.lean): 'registered' is also read off the registry as the model writes it along the history's accepted AddVamm / RemoveVamm (GhostRegSound.next_tracks: on the model the ghost list is the stored list after every transaction; regCheck_quiet), so a registry defect that drops a listed market cannot move a liquidation outside the quantifier.",
+ "C08": " Every fault point: Model/Fault.lean is the dispatcher with one injected failure (countdown over every dispatched message); FaultAtomic.fault_fails_tx proves for every k, world and transaction of every kind that a transaction which succeeds although fault k was armed never reached it and has the normal result (a fired fault fails the whole call; stepF_atomic: nothing changes), fault_profile gives the exact profile; the harness's fault mode and the theorem speak about the same indices (the driver compares, per engine transaction and index, whether the model's tree reaches the index and whether the implementation's sub-call exists). Fund side: Spec.C08.checkWithdrawExact (Spec/WithdrawExact.lean) — an accepted insurance-fund Withdraw{amount} moved exactly `amount` from the fund to its engine (a fund that pays what it has instead of failing would let the engine's transaction commit): SatWithdrawExact.sat_C08_withdrawExact.",
+ "C14": " Registry clause Spec.C14.checkReg (a successful RemoveVamm / AddVamm changes exactly the named entry, nothing else changes the registry): SatExtra3.sat_C14_reg, reachable_extra3, history_extra3. Liveness clause Spec.C14.checkPauseLive (a Liquidate / PayFunding refused BECAUSE the engine is paused, judged on the error text): SatExtra4.sat_C14_pauseLive; that the model's handlers do not consult the pause flag is EngineGuards.liquidate_ignores_pause / payFunding_ignores_pause. Ghost registry frame (Spec/GhostReg.lean, regFrame): after every transaction the stored list equals the list the history's accepted adds and removes leave when replayed with the model's list operations — GhostRegSound.next_tracks / regFrame_quiet (no hypothesis).",
  "C17": " vAMM-side clause Spec.C17.checkVammSide (Spec/LimitV.lean): on an accepted OpenPosition with a non-zero limit that opens, increases or reduces, the base amount is read off the vAMM's base reserve (not off the engine's stored size, which a book-keeping defect corrupts): SatLimitV.sat_C17_vammSide under the sign/direction invariant alone (shown necessary by a kernel-evaluated witness), corollaries on Reachable / ReachableTx worlds and along histories; swapInput_baseMoved: the swap moves the base reserve by exactly the reported amount and the vAMM's own guard gives the inequality.",
  "C18": " Feed clause Spec.C18F.recordedOk (an accepted submission is exactly one new round with the submitted values, older rounds untouched; latest / n-back answers are judged against what was SUBMITTED): C18FRec.appendPrice_recorded / appendMultiple_recorded.",
  "C12": " Deployment: the fee ratios a market charges are the ones its instantiate message carried — InstV.instantiate_fields (what one accepted vAMM instantiate stores, field by field) and DeployFields.deploy_fields (every market of a successful model deployment stores its spec's toll, spread, fluctuation limit, funding period, reserves, owner, engine, zero caps, open flag, registry bit; only the distinctness of the addresses is used, and shown necessary by a kernel-evaluated witness); on the implementation the driver compares the parameters of the CFG line with the first observation of every real deployment (deployChecks) and the vAMM stream compares the instantiate parameters with the stored configuration.",
